@@ -679,6 +679,46 @@ pub fn gen_cases(flavor: &str, rng: &mut Rng, n: usize, out: &mut dyn std::io::W
         writeln!(out, "reset").unwrap();
         let u = unit();
         let mut g = G { nb: 0, np: 0, live_b: vec![], live_p: vec![], wt: [false; NRES], wa: [0; NRES], va: [100 * u, 100 * u, 100 * u, 8 * u], ba: vec![], lines: vec![] };
+        if rng.chance(1, 8) {
+            // overlapping proofs on ONE bucket: distinct / duplicate amounts, arbitrary drop order, then the bucket
+            // goes back to the account: nothing may be lost or stuck
+            let r = rng.below(3) as usize;
+            let total = (10 + rng.below(10) as i128) * u;
+            g.lines.push(format!("withdraw {} {}", r, total));
+            g.lines.push(format!("takeall {}", r));
+            let k = 2 + rng.below(3) as usize;
+            let mut live: Vec<(u32, i128)> = vec![];
+            let mut np = 0u32;
+            for _ in 0..k {
+                let a = if !live.is_empty() && rng.chance(1, 4) { rng.pick(&live).1 } else { (1 + rng.below(9) as i128) * u };
+                g.lines.push(format!("bproof 0 {}", a));
+                live.push((np, a));
+                np += 1;
+                if rng.chance(1, 4) {
+                    let (p, pa) = *rng.pick(&live);
+                    g.lines.push(format!("clone {}", p));
+                    live.push((np, pa));
+                    np += 1;
+                }
+            }
+            while !live.is_empty() {
+                let i = rng.below(live.len() as u64) as usize;
+                let (p, _) = live.remove(i);
+                g.lines.push(format!("drop {}", p));
+                if rng.chance(1, 4) && !live.is_empty() {
+                    break;
+                }
+            }
+            g.lines.push("dropnamed".to_string());
+            g.lines.push(if rng.chance(1, 2) { "deposit 0".to_string() } else { "return 0".to_string() });
+            g.lines.push("depositall".to_string());
+            g.lines.push(format!("balance {}", r));
+            for l in &g.lines {
+                writeln!(out, "{}", l).unwrap();
+            }
+            writeln!(out, "end").unwrap();
+            continue;
+        }
         if flavor == "c10" && rng.chance(1, 5) {
             // overlapping-proofs stress on ONE vault: several live proofs (distinct and duplicate amounts, clones),
             // dropped in an arbitrary order; then exactly the unlocked remainder must be withdrawable and not one unit more
